@@ -137,9 +137,11 @@ def run(ctx):
                     ctx.mismatch(f'dependency of lifted column {k}', c, sorted(a), sorted(b))
                     bad.append(c)
                     break
-        why = oracle(st.float_case(ctx.rng, c), ctx.rng)
+        fc = st.float_case(ctx.rng, c)
+        why = oracle(fc, ctx.rng)
         if why:
-            ctx.fail(why, c, {'kinds': sorted(pipes.kinds_in(c['spec']))})
+            small = st.shrink(fc, lambda x: oracle(x, ctx.rng))
+            ctx.fail(oracle(small, ctx.rng) or why, small, {'kinds': sorted(pipes.kinds_in(c['spec']))})
 
     def search(ctx):
         for c in bad[:40]:
